@@ -1,12 +1,12 @@
 // Child process of the C18 harness: a REAL semadb node (cluster node + the production HTTP router
-// of httpapi.RunHTTPServer, i.e. the same mux and middleware chain `main.go` serves) on a local
-// port. It is a separate process because the property is about the process surviving: a panic
+// httpapi.setupRouter, i.e. the same mux and middleware chain `main.go` serves) on a local port. It is a separate process because the property is about the process surviving: a panic
 // outside every recover kills it, and the parent records that as an oracle failure.
 package main
 
 import (
 	"fmt"
 	"net"
+	"net/http"
 	"os"
 	"time"
 
@@ -31,13 +31,14 @@ func serveMain(dir string) {
 	if os.Getenv("C18_SERVER_LOG") != "" {
 		zerolog.SetGlobalLevel(zerolog.DebugLevel)
 	}
+	// The listener is opened on an ephemeral port chosen by the kernel and stays open: no port is
+	// derived from the seed and there is no window in which another process could take it.
 	l, err := net.Listen("tcp", "127.0.0.1:0")
 	if err != nil {
 		fmt.Println("ERR", err)
 		os.Exit(3)
 	}
 	port := l.Addr().(*net.TCPAddr).Port
-	l.Close()
 	cnode, err := cluster.NewNode(cluster.ClusterNodeConfig{
 		RootDir: dir,
 		Servers: []string{"localhost:9898"},
@@ -49,7 +50,15 @@ func serveMain(dir string) {
 		fmt.Println("ERR", err)
 		os.Exit(3)
 	}
-	httpapi.RunHTTPServer(cnode, httpapi.HttpApiConfig{HttpHost: "127.0.0.1", HttpPort: port, WhiteListIPs: []string{"*"}, UserPlans: userPlans}, nil)
+	// httpapi.VerifSetupRouter (tagged hook) is httpapi.setupRouter: the mux and middleware chain
+	// RunHTTPServer serves in production, Recover outermost
+	srv := &http.Server{Handler: httpapi.VerifSetupRouter(cnode, httpapi.HttpApiConfig{HttpHost: "127.0.0.1", HttpPort: port, WhiteListIPs: []string{"*"}, UserPlans: userPlans})}
+	go func() {
+		if err := srv.Serve(l); err != nil && err != http.ErrServerClosed {
+			fmt.Println("ERR", err)
+			os.Exit(3)
+		}
+	}()
 	fmt.Printf("PORT %d\n", port)
 	os.Stdout.Sync()
 	// die with the parent: stdin is a pipe held by the parent
